@@ -1,4 +1,5 @@
 import OrsoVerif.Model.DictRow
+import OrsoVerif.Generated.KernelsExpr
 /-!
 # C10 — the compiled helpers, with an explicit memory model
 
@@ -53,28 +54,31 @@ def paths (rows : List (RowObj α)) (cols : List Nat) : Option (List (List α)) 
   | [c0, c1] => path2 rows c0 c1
   | _ => pathN rows cols
 
-/-- Number of rows collected (pyx 119–121): all rows unless `0 ≤ limit < len(rows)`. -/
+/-- Number of rows collected (pyx 119–121): the limit replaces the row count when the *generated*
+guard holds (`limit >= 0 and limit < num_rows` in the source as it is now). -/
 def effectiveRows (n : Nat) (limit : Int) : Nat :=
-  if 0 ≤ limit ∧ limit < (n : Int) then limit.toNat else n
+  if Gen.Kernels.limitApplies limit n then limit.toNat else n
 
 /-- `collect_cython(rows, columns, limit)`. -/
 def collect (rows : List (RowObj α)) (cols : List Int) (limit : Int) : Outcome α :=
+  if Gen.Kernels.earlyExit rows.length cols.length then .ok (cols.map fun _ => [])   -- pyx 114–115
+  else
   match rows with
-  | [] => .ok (cols.map fun _ => [])
+  | [] => .oob                                                     -- `rows[0]` of an empty list (unreachable behind the early exit)
   | first :: _ =>
-    if cols.isEmpty then .ok []
-    else
       let width : Int := first.cells.length                       -- pyx 117: `len(rows[0])`, first row only
-      if cols.any (fun c => decide (c < 0 ∨ c ≥ width)) then .raises "IndexError"  -- pyx 124–127
+      if cols.any (fun c => decide (Gen.Kernels.badIndex c width)) then .raises "IndexError"  -- pyx 124–127 (generated guard)
       else
         match paths (rows.take (effectiveRows rows.length limit)) (cols.map Int.toNat) with
         | some m => .ok m
         | none => .oob
 
 /-- `calculate_data_width`: rendered lengths of the non-null values (`none` = null), floor 4. -/
-def dataWidth (lens : List (Option Nat)) : Nat :=
-  lens.foldl (fun acc l => match l with
-    | some w => if w > acc then w else acc
-    | none => acc) 4
+def widthStep (acc : Nat) (l : Option Nat) : Nat :=
+  match l with
+  | some w => if Gen.Kernels.widthUpdates w acc then w else acc
+  | none => acc
+
+def dataWidth (lens : List (Option Nat)) : Nat := lens.foldl widthStep Gen.Kernels.widthFloor
 
 end Kernels
